@@ -220,3 +220,16 @@ PROPS["C08"] = dict(
     design_ref="§6 C08",
     scope="all statements of the model for the clause theorems; generated statements for parse / tree equality",
 )
+
+from stages import stage_c13
+PROPS["C13"] = dict(
+    groups=["coltypes"],
+    lean_props=["SeaQ.Props.C13"],
+    lean_obligations=[],
+    extra=[stage_c13],
+    technique="Lean 4 proof over the SQLite type-name table regenerated from src/backend/sqlite/table.rs on every run: for every supported ColumnType variant, every template its arm can write and every value of the length / precision / scale parameters, SQLite's five-rule affinity of the written name is the intended one (digits can neither contain nor complete a letter pattern: hasSub_digits); execution and the catalogue are decided on the engine: generated scenarios of CREATE TABLE / CREATE INDEX / ALTER / RENAME / DROP are executed on SQLite and PRAGMA table_xinfo / index_list / index_xinfo / foreign_key_list, CAST-observed affinity and evaluated defaults are compared with the catalogue expected from the scenario description",
+    level_text="Machine-checked: affinity_intended for all parameter values over the regenerated table (translator: seaq-translate group coltypes; an arm it does not understand fails the check). Validated by execution: acceptance of every generated schema statement and equality of the reported catalogue (columns in order, nullability, default, primary key, uniqueness, autoincrement, checks, index columns / direction / uniqueness / partial, foreign-key columns and actions) with the declaration.",
+    level_note="Trusted: Lean kernel; seaq-translate (syn) for the type-name table; SQLite's documented affinity rules as written in SeaQ.Affinity.affinity (cross-checked against the engine through CAST on every generated column); the expected-catalogue rules of the harness (rowid alias, automatic indexes, default actions); the SQLite library linked into python3. The DDL renderer itself is not modelled in Lean (no statement-level theorem for DDL).",
+    design_ref="§6 C13",
+    scope="all parameter values for the affinity theorem; generated scenarios for execution",
+)
